@@ -5,13 +5,13 @@
 
 use serde_json::json;
 use vcore::{Run, Tier};
-use vindex::bt::{self, Bt, BtCfg, BtOp, Key};
-use vindex::engine::{self, CrashOpts, Explore, ExploreOut, HOp, Mode, Start};
+use vindex::bt::{self, Bt, BtCfg, BtOp, Key, Origin};
+use vindex::engine::{self, CrashOpts, Explore, ExploreOut, HOp, Mode};
 
 struct Job {
     key_type: &'static str,
     unique: bool,
-    start: Option<usize>,
+    start: Origin,
     alphabet: Vec<HOp<BtOp>>,
     depth: usize,
     share: f64,
@@ -52,13 +52,7 @@ fn run_job<K: Key>(run: &mut Run, job: &Job, budget_s: f64) -> ExploreOut {
         unique: job.unique,
         bucket_overload_size: 64,
     };
-    let (start, start_label) = match job.start {
-        None => (Start::Fresh, "fresh".to_string()),
-        Some(i) => {
-            let (name, seed) = bt::legacy_seeds().swap_remove(i);
-            (Start::Legacy(seed), name.to_string())
-        }
-    };
+    let (start, start_label) = bt::origin_start(job.start);
     let x = Explore::<Bt<K>> {
         cfg,
         start,
@@ -68,6 +62,7 @@ fn run_job<K: Key>(run: &mut Run, job: &Job, budget_s: f64) -> ExploreOut {
         dedup: true,
         mode: mode(),
         deep_depth: 0,
+        past_known: false,
     };
     engine::explore(run, "crash", &x, budget_s, budget_s)
 }
@@ -89,24 +84,33 @@ fn main() {
 
     let full = bt::alphabet(3, true, true);
     let small = bt::alphabet(2, true, false);
+    use Origin::*;
     let jobs: Vec<Job> = match run.tier {
         Tier::Quick => vec![
-            Job { key_type: "String", unique: false, start: None, alphabet: full.clone(), depth: 2, share: 0.15 },
-            Job { key_type: "String", unique: false, start: None, alphabet: small.clone(), depth: 3, share: 0.35 },
-            Job { key_type: "String", unique: true, start: None, alphabet: small.clone(), depth: 3, share: 0.10 },
-            Job { key_type: "u64", unique: false, start: None, alphabet: small.clone(), depth: 3, share: 0.15 },
-            Job { key_type: "String", unique: false, start: Some(0), alphabet: small.clone(), depth: 2, share: 0.05 },
-            Job { key_type: "String", unique: false, start: Some(1), alphabet: small.clone(), depth: 2, share: 0.10 },
-            Job { key_type: "String", unique: false, start: Some(2), alphabet: small.clone(), depth: 2, share: 0.10 },
+            Job { key_type: "String", unique: false, start: Fresh, alphabet: full.clone(), depth: 2, share: 0.15 },
+            Job { key_type: "String", unique: false, start: Fresh, alphabet: small.clone(), depth: 3, share: 0.35 },
+            Job { key_type: "String", unique: true, start: Fresh, alphabet: small.clone(), depth: 3, share: 0.10 },
+            Job { key_type: "u64", unique: false, start: Fresh, alphabet: small.clone(), depth: 3, share: 0.15 },
+            Job { key_type: "String", unique: false, start: Legacy(0), alphabet: small.clone(), depth: 2, share: 0.05 },
+            Job { key_type: "String", unique: false, start: Legacy(1), alphabet: small.clone(), depth: 2, share: 0.10 },
+            Job { key_type: "String", unique: false, start: Legacy(2), alphabet: small.clone(), depth: 2, share: 0.10 },
+            Job { key_type: "String", unique: false, start: Prelude(0), alphabet: small.clone(), depth: 2, share: 0.05 },
+            Job { key_type: "String", unique: false, start: Prelude(2), alphabet: small.clone(), depth: 2, share: 0.05 },
+            Job { key_type: "String", unique: false, start: Fabricated(0), alphabet: small.clone(), depth: 1, share: 0.03 },
+            Job { key_type: "String", unique: false, start: Fabricated(1), alphabet: small.clone(), depth: 1, share: 0.03 },
         ],
         Tier::Thorough => vec![
-            Job { key_type: "String", unique: false, start: None, alphabet: full.clone(), depth: 7, share: 0.40 },
-            Job { key_type: "String", unique: true, start: None, alphabet: full.clone(), depth: 7, share: 0.12 },
-            Job { key_type: "u64", unique: false, start: None, alphabet: full.clone(), depth: 7, share: 0.15 },
-            Job { key_type: "u64", unique: true, start: None, alphabet: full.clone(), depth: 7, share: 0.08 },
-            Job { key_type: "String", unique: false, start: Some(0), alphabet: full.clone(), depth: 4, share: 0.05 },
-            Job { key_type: "String", unique: false, start: Some(1), alphabet: full.clone(), depth: 4, share: 0.10 },
-            Job { key_type: "String", unique: false, start: Some(2), alphabet: full.clone(), depth: 4, share: 0.10 },
+            Job { key_type: "String", unique: false, start: Fresh, alphabet: full.clone(), depth: 7, share: 0.40 },
+            Job { key_type: "String", unique: true, start: Fresh, alphabet: full.clone(), depth: 7, share: 0.12 },
+            Job { key_type: "u64", unique: false, start: Fresh, alphabet: full.clone(), depth: 7, share: 0.15 },
+            Job { key_type: "u64", unique: true, start: Fresh, alphabet: full.clone(), depth: 7, share: 0.08 },
+            Job { key_type: "String", unique: false, start: Legacy(0), alphabet: full.clone(), depth: 4, share: 0.05 },
+            Job { key_type: "String", unique: false, start: Legacy(1), alphabet: full.clone(), depth: 4, share: 0.10 },
+            Job { key_type: "String", unique: false, start: Legacy(2), alphabet: full.clone(), depth: 4, share: 0.08 },
+            Job { key_type: "String", unique: false, start: Prelude(0), alphabet: full.clone(), depth: 4, share: 0.05 },
+            Job { key_type: "String", unique: false, start: Prelude(2), alphabet: full.clone(), depth: 4, share: 0.05 },
+            Job { key_type: "String", unique: false, start: Fabricated(0), alphabet: full.clone(), depth: 3, share: 0.03 },
+            Job { key_type: "String", unique: false, start: Fabricated(1), alphabet: full.clone(), depth: 3, share: 0.03 },
         ],
     };
 
@@ -150,7 +154,12 @@ fn main() {
          pre-mutation snapshot whole, the live index has the mutation, and the next undisturbed flush + load has it too",
     );
     run.assume("a crash loses exactly the writes not yet acknowledged by the flush closures; object puts/deletes are atomic per object (object-store contract, checked by C07/C08)");
-    run.assume("legacy start states are fabricated from a real flush: manifest stripped from the metadata, bucket objects renamed to generation 0 (the layout the crate docs and its tests describe); stale duplicate postings across legacy buckets are not fabricated");
+    run.rule(
+        "additional start states: the populated multi-bucket prelude and the shrunk + compacted + flushed prelude (depth 2), and two \
+         hand-made legacy layouts (key duplicated in a lower bucket; empty posting above an older copy) at depth 1: the first flush \
+         after loading them (repair of the lower bucket + first manifest) is crash-enumerated like every other flush",
+    );
+    run.assume("legacy start states are fabricated from a real flush: manifest stripped from the metadata, bucket objects renamed to generation 0 (the layout the crate docs and its tests describe); duplicates / empty postings are written into those objects by hand following the loader's documentation");
     run.assume("dedup key does not see in-memory bucket size estimates or version counters");
     run.finish();
 }
